@@ -17,6 +17,9 @@ use crate::serialization::{StrandVectorC, StrandVectorE, StrandVectorX};
 use crate::util::{Par, StrandError};
 use crate::zkp::ChallengeInput;
 
+#[cfg(strand_verif)]
+pub mod verif;
+
 pub(crate) struct YChallengeInput<'a, C: Ctx> {
     pub es: &'a [Ciphertext<C>],
     pub e_primes: &'a [Ciphertext<C>],
@@ -620,6 +623,12 @@ impl<'a, C: Ctx> Shuffler<'a, C> {
 }
 
 pub(crate) fn gen_permutation(size: usize) -> Vec<usize> {
+    #[cfg(strand_verif)]
+    {
+        if let Some(p) = crate::verif_hooks::take_perm() {
+            return p;
+        }
+    }
     let mut rng = StrandRng;
 
     let mut ret: Vec<usize> = (0..size).collect();
